@@ -170,6 +170,18 @@ def m_deque_pop_front(I, m, argv, fr, dest, c):
     return NoneV()
 
 
+def m_deque_pop_back(I, m, argv, fr, dest, c):
+    items = deref1(argv[0]).items
+    if items:
+        return SomeV(items.pop())
+    return NoneV()
+
+
+def m_deque_push_front(I, m, argv, fr, dest, c):
+    deref1(argv[0]).items.insert(0, argv[1])
+    return Unit
+
+
 def m_slice_iter(I, m, argv, fr, dest, c):
     v = argv[0]
     t = deref1(v) if not isinstance(v, (SliceRef, VecSliceRef)) else v
@@ -592,6 +604,8 @@ def container_models():
         (R(r"^VecDeque::<.*>::new$"), m_deque_new),
         (R(r"^VecDeque::<.*>::push_back$"), m_deque_push_back),
         (R(r"^VecDeque::<.*>::pop_front$"), m_deque_pop_front),
+        (R(r"^VecDeque::<.*>::pop_back$"), m_deque_pop_back),
+        (R(r"^VecDeque::<.*>::push_front$"), m_deque_push_front),
         (R(r"^core::slice::<impl \[.*\]>::iter(?:_mut)?$"), m_slice_iter),
         (R(r"^Vec::<(?!u8>).*>::drain::<(?:std::ops::)?RangeFull>$"), m_drain_vec),
         (R(r"^VecDeque::<.*>::reserve$"), m_vec_reserve),
